@@ -145,6 +145,10 @@ class MetaSystem:
     acts.append(('multi', (('S', (), 'k2', 'w'), (9, (), 'k1', 'w'), (1, (), 'k2', 'w'))))   # names a missing trial
     acts.append(('algo', (('S', ALGO_NS, 'k1', 'st1'),)))
     acts.append(('algo', (('S', ALGO_NS + ('sub',), 'k1', 'st2'), (1, ALGO_NS, 'k1', 'st3'))))
+    # the same namespace and key on the study and on both trials, in one delta (units adjacent in the transport)
+    acts.append(('algo', (('S', ALGO_NS, 'k2', 'st4'), (1, ALGO_NS, 'k2', 'st5'), (2, ALGO_NS, 'k2', 'st6'))))
+    acts.append(('algo', ((1, ('a',), 'k2', 'r1'), (2, ('a',), 'k2', 'r2'))))
+    acts.append(('multi', (('S', ('a',), 'k1', 'x'), (1, ('a',), 'k1', 'y'), (2, ('a',), 'k1', 'z'))))
     acts.append(('complete', 1))
     return acts
 
